@@ -82,6 +82,10 @@ pub struct Obs {
     pub rotated: Vec<(Vec<u8>, Vec<u8>)>,
     #[serde(default)]
     pub extra_rotation_damage: Option<String>,
+    /// `reload_rounds`: what the application answered to the first batch each time it was built again in this
+    /// process (after an application with other limits had been built, used and dropped)
+    #[serde(default)]
+    pub reloads: Vec<Value>,
 }
 
 /// the application behind the language-binding interface (`CompassAppBindings`: what the Python package calls):
@@ -402,6 +406,26 @@ pub fn execute(case: &Case, opts: ExecOpts, mut instr: Box<dyn Instrument>, fata
             }
             Ok(Err(e)) => obs.build_error = Some(e),
             Err(_) => obs.build_error = Some("PANIC".into()),
+        }
+        // a history: the application is built again and again in this process - a notebook that changes its
+        // configuration, a service that reloads -, alternately with generous limits and with its own (quiet phase)
+        if let Some(k) = case.params.get("reload_rounds").and_then(|x| x.as_u64()) {
+            let mut loose = case.world.clone();
+            loose.termination = serde_json::json!({"type": "combined", "models": [{"type": "iterations", "limit": 1u64 << 40}, {"type": "solution_size", "limit": 1u64 << 40}]});
+            let batch = case.batches.get(0).cloned().unwrap_or_default();
+            let pool = harness::make_pool(1);
+            for _ in 0..k {
+                for (wi, wd) in [&loose, &case.world].into_iter().enumerate() {
+                    let r = catch_unwind(AssertUnwindSafe(|| build_app(&wd.config(false)).and_then(|app| pool.install(|| app.run(batch.clone(), None)).map_err(|e| e.to_string()))));
+                    if wi == 1 {
+                        obs.reloads.push(match r {
+                            Ok(Ok(v)) => Value::Array(v),
+                            Ok(Err(e)) => serde_json::json!({"error": e}),
+                            Err(_) => serde_json::json!({"panic": true}),
+                        });
+                    }
+                }
+            }
         }
         obs.panics = take_panics();
         obs.extra = instr.extra();
